@@ -1101,6 +1101,10 @@ class NumpyStub:
 
     def f_zeros(self, shape, dtype=float, **k):
         dt = self.to_dtype(dtype)
+        raw_shape = shape if isinstance(shape, (tuple, list)) else (shape,)
+        if getattr(self.I, "extent_cap", None) is None and any(isinstance(raw(s), Sym) and isinstance(raw(concretize(raw(s))), Sym) for s in raw_shape):
+            from . import tarr
+            return tarr.zeros(self, raw_shape, dt)
         shape = self.shape_arg(shape)
         if any(s < 0 for s in shape):
             raise Raised(ValueError("negative dimensions are not allowed"))
@@ -1133,6 +1137,9 @@ class NumpyStub:
         return self.f_zeros(a.shape, dtype or a.dtype)
 
     def f_ones_like(self, a, dtype=None, **k):
+        if isinstance(a, TArr):
+            from . import tarr
+            return tarr.ones_like(self, a, dtype)
         a = self.as_arr(a)
         return self.f_ones(a.shape, dtype or a.dtype)
 
@@ -1277,6 +1284,9 @@ class NumpyStub:
         return NpScalar(r, dtype or DT_OF_KIND[kind_of(r)])
 
     def f_isnan(self, x):
+        if isinstance(x, TArr):      # arrays of symbolic extent carry no NaN (precondition of the contracts that use them)
+            from . import tarr
+            return tarr.from_fn(self, x.shape, bool, lambda *idx: z3.BoolVal(False))
         def f(e):
             if isinstance(e, Sym):
                 return mk(e.nan, "bool") if e.nan is not None else False
@@ -1521,6 +1531,9 @@ class NumpyStub:
 
     def f_argsort(self, a, **k):
         """Assumed contract: a permutation p of 0..n-1 with a[p] non-decreasing (no stability promised)."""
+        if isinstance(a, TArr):
+            from . import tarr
+            return tarr.argsort(self, a)
         a = self.as_arr(a)
         if a.ndim != 1:
             raise Untranslatable("argsort ndim>1")
@@ -1549,6 +1562,8 @@ class NumpyStub:
         return self.advanced_index(a, [self.f_argsort(a)])
 
     def f_median(self, a, **k):
+        if isinstance(a, TArr):
+            return Sym(z3.Real(self.I.ctx.fresh_name("median")), "float", True)
         a = self.as_arr(a)
         el = a.elems()
         if all(not isinstance(e, Sym) for e in el):
